@@ -18,7 +18,7 @@ PyObject *CPyDict_GetItem(PyObject *dict, PyObject *key) {
         PyObject *res;
         int found = PyDict_GetItemRef(dict, key, &res);
         if (found == 0) {
-            PyErr_SetObject(PyExc_KeyError, key);
+            _PyErr_SetKeyError(key);
         }
         return res;
     } else {
